@@ -64,7 +64,24 @@ impl ReadRes {
     }
 }
 
+#[allow(unconditional_recursion)]
+fn burn_stack(n: u64) -> u64 {
+    let pad = [n; 64];
+    std::hint::black_box(&pad);
+    burn_stack(n + 1) + pad[3]
+}
+
 fn read_once(asset: &[u8], sidecar: Option<&[u8]>) -> ReadRes {
+    // self-test faults, injected only in the small-stack variant and only for big stores
+    if std::thread::current().name() == Some("c19-small-stack") && asset.len() > 200_000 {
+        match std::env::var("VERIF_SELFTEST").as_deref() {
+            Ok("child-overflow") => {
+                std::hint::black_box(burn_stack(0));
+            }
+            Ok("child-hang") => std::thread::sleep(Duration::from_secs(100_000)),
+            _ => {}
+        }
+    }
     let counter = Arc::new(AtomicU64::new(0));
     let c2 = counter.clone();
     let ctx = sdk::context().with_progress_callback(move |_, _, _| {
@@ -316,8 +333,9 @@ fn run_child_once(asset: &[u8], sidecar: Option<&[u8]>, watchdog: Duration) -> C
 
 /// One retry with a doubled watchdog before a hang is reported (the machine is shared).
 fn run_child(asset: &[u8], sidecar: Option<&[u8]>) -> ChildOutcome {
-    match run_child_once(asset, sidecar, Duration::from_secs(WATCHDOG_S)) {
-        ChildOutcome::Hang { .. } => run_child_once(asset, sidecar, Duration::from_secs(WATCHDOG_S * 2)),
+    let wd = if selftest() == "child-hang" { 3 } else { WATCHDOG_S };
+    match run_child_once(asset, sidecar, Duration::from_secs(wd)) {
+        ChildOutcome::Hang { .. } => run_child_once(asset, sidecar, Duration::from_secs(wd * 2)),
         o => o,
     }
 }
@@ -512,6 +530,8 @@ struct Bound {
 }
 
 static BOUND: OnceLock<Bound> = OnceLock::new();
+/// (largest work/limit seen, where, largest work/(V+E) on graphs with V+E >= 50)
+static CLOSEST: Mutex<(f64, String, f64)> = Mutex::new((0.0, String::new(), 0.0));
 static SELFTEST: OnceLock<String> = OnceLock::new();
 
 fn selftest() -> &'static str {
@@ -578,6 +598,18 @@ fn judge_outcome(run: &Run, label: &str, v: usize, e: usize, expect: &Expect, ou
         }
     }
     let limit = work_limit(v, e);
+    {
+        let mut g = CLOSEST.lock().unwrap();
+        let ratio = main.work() as f64 / limit as f64;
+        if ratio > g.0 {
+            g.0 = ratio;
+            g.1 = format!("{label}: V={v} E={e} work={} limit={limit}", main.work());
+        }
+        let lin = main.work() as f64 / (v + e).max(1) as f64;
+        if v + e >= 50 && lin > g.2 {
+            g.2 = lin;
+        }
+    }
     if main.work() > limit {
         return Err(Fail::new(
             "C19:work-superquadratic",
@@ -1332,8 +1364,8 @@ fn main() {
         small.extend(enumerate_graphs(n, n * n, run.seed));
     }
     run.drive_enum_par("crafted_exhaustive_le3", small, threads, |g| judge_graph(&run, g));
-    let four = enumerate_graphs(4, run.scale(3, 6), run.seed);
-    run.extra("four_node_graphs", json!({"max_edges": run.scale(3, 6), "count": four.len()}));
+    let four = enumerate_graphs(4, run.scale(4, 6), run.seed);
+    run.extra("four_node_graphs", json!({"max_edges": run.scale(4, 6), "count": four.len()}));
     run.drive_enum_par("crafted_exhaustive_4", four, threads, |g| judge_graph(&run, g));
     run.set_exhaustive(false);
     phase("crafted_exhaustive");
@@ -1344,7 +1376,7 @@ fn main() {
         let cap = if size % 5 == 0 { max_nodes } else { 60 };
         gen_random(&RandSpec { family, size, seed }, cap)
     });
-    run.drive_par("crafted_random", run.scale(300, 20_000), threads, strat, |g| judge_graph(&run, g));
+    run.drive_par("crafted_random", run.scale(600, 20_000), threads, strat, |g| judge_graph(&run, g));
     phase("crafted_random");
 
     // fixed large members of every family (always run, so that the 300-manifest end of the domain is never missed)
@@ -1361,5 +1393,9 @@ fn main() {
     phase("crafted_fixed_large");
     });
 
+    {
+        let g = CLOSEST.lock().unwrap();
+        run.extra("work_closest_to_bound", json!({"work_over_limit": g.0, "case": g.1, "max_work_per_node_or_edge_on_graphs_ge_50": g.2}));
+    }
     run.finish();
 }
